@@ -153,8 +153,42 @@ func resolveSymtabRoles(c *Ctx, rule string) *symtabRoles {
 	r.disabledTest = get("isBuiltinDisabled", true)
 	r.reset = get("reset", true)
 	r.newTable = get("NewSymbolTable", false)
-	r.copyStates = get("optimCopyBuiltinStates", false)
-	r.copyScope = get("optimCopyBuiltinStatesFromScope", false)
+	// the two inheriting functions are found by role: called from the method
+	// of optimizerEval that calls reset, with the operand types (*SymbolTable,
+	// *SymbolTable) and (*SymbolTable, *optimizerScope) - receiver included, in
+	// either order
+	if r.reset != nil {
+		isST := func(t types.Type) bool { return isSymtabPtr(t) }
+		isScope := func(t types.Type) bool {
+			p, ok := t.(*types.Pointer)
+			return ok && isNamed(p.Elem(), modPath, "optimizerScope")
+		}
+		for _, ci := range l.StaticCallers(r.reset) {
+			prep := ci.Parent()
+			if prep.Signature.Recv() == nil || !isNamed(prep.Signature.Recv().Type(), modPath, "optimizerEval") {
+				continue
+			}
+			eachInstr(prep, func(ins ssa.Instruction) {
+				cl, ok := ins.(*ssa.Call)
+				if !ok {
+					return
+				}
+				f := cl.Call.StaticCallee()
+				if f == nil || funcPkgPath(f) != modPath || len(f.Blocks) == 0 || len(f.Params) != 2 {
+					return
+				}
+				a, b := f.Params[0].Type(), f.Params[1].Type()
+				switch {
+				case isST(a) && isST(b):
+					r.copyStates = f
+				case (isST(a) && isScope(b)) || (isScope(a) && isST(b)):
+					r.copyScope = f
+				}
+			})
+		}
+	}
+	ok = c.Anchor(rule, "the function that copies builtin states between two symbol tables (called by the evaluator's reset method)", r.copyStates != nil) && ok
+	ok = c.Anchor(rule, "the function that disables the builtins shadowed in the optimizer's scope chain (called by the evaluator's reset method)", r.copyScope != nil) && ok
 	if !ok {
 		return nil
 	}
